@@ -7,7 +7,8 @@
    available (no source, and the generator is absent or fails) nothing is published and an
    error is returned -- unless AllowNoDelay, which lets messages without delay through.
      cfg   = [gen |-> "ok" | "fail" | "none", allow |-> BOOLEAN, inner |-> "accept" | "error"]
-     batch = sequence of delay sources: "meta" | "ctx" | "none"
+     batch = sequence of delay sources: "meta" | "metafor" (only the delayed-for key was set, by hand: it counts as
+             metadata already present and is left as it is) | "ctx" | "none"
    Expected(cfg, batch) = [err, calls, from]  (from[i] = where message i's stamp came from).
 
    Transform decorators and metrics decorators are transparent: one inner call per Publish,
@@ -17,7 +18,7 @@
 EXTENDS Naturals, Sequences, TLC
 
 Source(cfg, s) ==
-    CASE s = "meta" -> "meta"
+    CASE s \in {"meta", "metafor"} -> "meta"
       [] s = "ctx"  -> "ctx"
       [] OTHER      -> IF cfg.gen = "ok" THEN "gen" ELSE IF cfg.gen = "fail" THEN "generr" ELSE IF cfg.allow THEN "nodelay" ELSE "missing"
 Bad(cfg, batch) == \E i \in 1..Len(batch) : Source(cfg, batch[i]) \in {"generr", "missing"}
